@@ -20,6 +20,7 @@ func init() {
 			TestHammerOneKey(tt)
 			TestHammerFreshSeconds(tt)
 			TestHammerBigSweep(tt)
+			TestManyEntries(tt)
 		}
 	}
 }
@@ -234,5 +235,62 @@ func TestHammerBigSweep(t *testing.T) {
 		if early+unresolved+twice > 0 {
 			ev.Fail(t, "queue-hammer", c, "%d due entries per sweep: %d new registrations (deadline one hour away) were expired by the sweep at 10 s; %d old entries never resolved, %d resolved twice", n, early, unresolved, twice)
 		}
+	}
+}
+
+// TestManyEntries: the table has no bound of its own — the identifier range per session is the
+// only one. 200 000 exchanges over several sessions (more than 65536 in all) are registered,
+// a third acknowledged, and the rest swept: every registration is accepted and resolves
+// exactly once, and an entry that is re-registered from its expiry callback while the table
+// is that full is accepted too.
+func TestManyEntries(t *testing.T) {
+	c := map[string]interface{}{"scenario": "200000 pending exchanges over 4 sessions", "entries": 200000}
+	ev.Case(true, c, "many-entries")
+	q := ack.NewQueue()
+	const perSession = 50000
+	fired := make([]int32, 4*perSession)
+	rearmed, rearmRefused := int32(0), int32(0)
+	for s := 0; s < 4; s++ {
+		for id := 1; id <= perSession; id++ {
+			k := s*perSession + id - 1
+			st, _, _ := mkStored("pub1", int32(id))
+			sess := fmt.Sprintf("s%d", s)
+			var cb func(expired bool, _, _ packet.Packet)
+			cb = func(expired bool, _, _ packet.Packet) {
+				atomic.AddInt32(&fired[k], 1)
+				if expired && k%1000 == 0 && atomic.LoadInt32(&fired[k]) == 1 {
+					// a retransmission: the exchange goes on under the same key
+					if err := q.Insert(sess, st, t0.Add(10*time.Hour), func(bool, packet.Packet, packet.Packet) {}); err != nil {
+						atomic.AddInt32(&rearmRefused, 1)
+					} else {
+						atomic.AddInt32(&rearmed, 1)
+					}
+				}
+			}
+			// deadlines spread over 3000 different seconds (one bucket of the timeout list each)
+			if err := q.Insert(sess, st, t0.Add(time.Duration(k%3000)*time.Second), cb); err != nil {
+				ev.Fail(t, "queue-hammer", c, "registration %d (session %s, identifier %d, nothing else uses that key) was refused: %v", k+1, sess, id, err)
+				return
+			}
+		}
+	}
+	for s := 0; s < 4; s++ {
+		for id := 3; id <= perSession; id += 3 {
+			p, _, _ := mkAck("puback", int32(id))
+			if err := q.Ack(fmt.Sprintf("s%d", s), p); err != nil {
+				ev.Fail(t, "queue-hammer", c, "acknowledgement of pending exchange s%d/%d failed: %v", s, id, err)
+				return
+			}
+		}
+	}
+	q.Expire(t0.Add(2 * time.Hour))
+	for k, n := range fired {
+		if n != 1 {
+			ev.Fail(t, "queue-hammer", c, "exchange %d resolved %d times, want exactly 1", k, n)
+			return
+		}
+	}
+	if rearmRefused > 0 {
+		ev.Fail(t, "queue-hammer", c, "%d of %d re-registrations from an expiry callback were refused", rearmRefused, rearmed+rearmRefused)
 	}
 }
